@@ -1,3 +1,4 @@
+import WS.Lemmas.LineLaw
 import WS.Model.Server
 import WS.Lemmas.SrcLaw
 /-
@@ -82,5 +83,23 @@ theorem upgrade_reader_choice (rbs : Int) (brSize buffered : Nat) :
 
 /-- non-vacuity -/
 example : (serve ⟨some [1, 2, 3, 4, 5]⟩ [1, 0, 7]).1 = [1, 2, 3, 4, 5] := by decide
+
+open WS.SrcLaw WS.LineLaw in
+/-- client side: http.ReadResponse consumes the 101 header block line by line from the connection's
+    own bufio.Reader; for every chunking and buffer size exactly the header lines are consumed, so the
+    first frame starts at the byte after the empty line — bytes glued to the handshake are neither
+    lost nor duplicated (with C03's stream law for what follows) -/
+theorem client_header_block_consumed_exactly (lines : List Bytes) (hl : ∀ l ∈ lines, (10 : UInt8) ∉ l) (b : Buf) (h : WF b) (hs : 16 ≤ b.size)
+    (htot : b.pending.length ≤ b.total)
+    (rest : Bytes) (hp : b.pending = block lines rest) :
+    let b' := lines.foldl (fun b _ => b.readLine (2 * b.total + 2)) b
+    WF b' ∧ b'.pending = rest ∧ Same b b' ∧ b'.total = b.total := by
+  first | exact LineLaw.readLines_spec .. | (apply LineLaw.readLines_spec <;> assumption)
+
+open WS.SrcLaw WS.LineLaw in
+theorem readLine_spec (b : Buf) (h : WF b) (hs : 16 ≤ b.size) (line rest : Bytes) (hl : (10 : UInt8) ∉ line)
+    (hp : b.pending = line ++ 10 :: rest) (fuel : Nat) (hf : 2 * b.pending.length + 2 ≤ fuel) :
+    WF (b.readLine fuel) ∧ (b.readLine fuel).pending = rest ∧ Same b (b.readLine fuel) := by
+  first | exact LineLaw.readLine_spec .. | (apply LineLaw.readLine_spec <;> assumption)
 
 end WS.Props.C17
